@@ -1,4 +1,4 @@
-import Proofs.Lemmas.ModeL
+import Proofs.Lemmas.ModeBit
 open Model Model.Mode Proofs.Lemmas.ModeL
 namespace Proofs.Lemmas.ModeL
 
@@ -40,8 +40,8 @@ theorem bitpad_len (l : Nat) (hl : 0 < l) (M : List Nat) : (Spec.ModePad.bitpad 
   rw [Nat.succ_mul, Nat.mul_comm]
   generalize l * (M.length / l) = q at *; omega
 
-theorem padFacts (s : Spec.ModePad.Scheme) (l : Nat) (hl : 0 < l) (M : List Nat) (hd : PadDom s l M) (hM : Bytes M)
-    (hs : s ≠ .bit) : PadFacts s l M := by
+theorem padFacts (s : Spec.ModePad.Scheme) (l : Nat) (hl : 0 < l) (M : List Nat) (hd : PadDom s l M) (hM : Bytes M) :
+    PadFacts s l M := by
   have hq := padLen_pos l hl M
   cases s with
   | none =>
@@ -56,6 +56,8 @@ theorem padFacts (s : Spec.ModePad.Scheme) (l : Nat) (hl : 0 < l) (M : List Nat)
     refine ⟨iter_x923 l hl hd M, ⟨_, x923_len l hl M⟩, (hM.append (Bytes.replicate (by omega))).append ?_,
       fun st => remove_x923 l hl M st⟩
     intro x hx; simp at hx; have : l < 256 := hd; omega
-  | bit => exact absurd rfl hs
+  | bit =>
+    refine ⟨iter_bit l hl M hM, ⟨_, bitpad_len l hl M⟩, hM.append ?_, fun st => remove_bit l hl M hM st⟩
+    intro x hx; simp at hx; rcases hx with rfl | ⟨_, rfl⟩ <;> omega
 
 end Proofs.Lemmas.ModeL
